@@ -361,6 +361,7 @@ func (m *monitors) absorb(snap *scheduler.VerifSnap) {
 					ti.finalProblem = why
 					ti.finalTag = "early-abandonment"
 					m.fail("C06", "early-abandonment", "task %d: %s", ti.id, why)
+					m.failC03EarlyAbandonment(ti, why)
 				}
 			}
 		}
@@ -378,6 +379,7 @@ func (m *monitors) absorb(snap *scheduler.VerifSnap) {
 					m.checkCancelledWithLiveStream(ti, "disappeared without a result, i.e. its last operation was removed as abandoned")
 					if why := m.abandonedTooEarly(ti, min(now, nsTick(snap.Now))); why != "" {
 						m.fail("C06", "early-abandonment", "task %d disappeared without a result (its last operation was removed as abandoned): %s", id, why)
+						m.failC03EarlyAbandonment(ti, why)
 					}
 					if l := ti.lastLearner(); l != nil && !(l.abandonedN == 1 && l.succeeded == 0 && l.failed == 0) {
 						m.fail("C07", "learner/mismatch/vanished", "task %d disappeared without a result (abandoned by its clients) but its learner %v received succeeded=%d failed=%d abandoned=%d; expected exactly one Abandoned", id, l, l.succeeded, l.failed, l.abandonedN)
@@ -453,6 +455,23 @@ func (m *monitors) abandonedTooEarly(ti *taskInfo, at int) string {
 		}
 	}
 	return ""
+}
+
+// failC03EarlyAbandonment: C03 "While a task for a cacheable action is queued
+// or executing, any further Execute request for the same action digest
+// attaches to that task ... a client leaving does not disturb the others, and
+// the task is cancelled only when its last operation is ABANDONED". An
+// operation counts as abandoned once nobody has waited on it for
+// OperationWithNoWaitersTimeout (C06); until then its client may re-attach and
+// a duplicate Execute must still find the task. A task that is cancelled / dropped
+// from the in-flight map while one of its operations is still inside that
+// window was not abandoned: the next duplicate request starts a second
+// execution and a re-attaching client gets NOT_FOUND (w.mu held).
+func (m *monitors) failC03EarlyAbandonment(ti *taskInfo, why string) {
+	if ti.doNotCache || ti.background {
+		return
+	}
+	m.fail("C03", "cancelled-before-abandoned", "task %d (cacheable action %s) was cancelled for lack of clients before its last operation was abandoned: %s; a duplicate Execute or a re-attaching WaitExecution arriving inside the window no longer finds it", ti.id, ti.digestHash, why)
 }
 
 // classifyCompletion judges the final response of a task at the moment its
@@ -1023,7 +1042,9 @@ func (m *monitors) onWorkerCallEnd(a *actor, resp *remoteworker.SynchronizeRespo
 		}
 		return
 	}
-	if exec != nil {
+	if exec != nil || resp.GetDesiredState().GetIdle() != nil {
+		// (Nothing can have run since the call dropped the scheduler lock: the
+		// worker thread has not passed a scheduling point in between.)
 		snap = scheduler.VerifSnapshot(w.bq)
 	}
 	w.mu.Lock()
@@ -1053,6 +1074,18 @@ func (m *monitors) onWorkerCallEnd(a *actor, resp *remoteworker.SynchronizeRespo
 	case ds == nil:
 		x.Outcome("%s:cont", a.name)
 	case ds.GetIdle() != nil:
+		// C01: "each accepted, not yet completed task is either waiting in the
+		// queue ... or assigned to exactly one worker ... A Synchronize response
+		// only ever tells a worker to execute the task currently assigned to that
+		// worker": the response is how the worker learns what is assigned to it.
+		// A response that sends the worker idle while the scheduler has a task
+		// bound to it (e.g. one handed over while the worker's long poll was
+		// timing out) leaves that task with a worker that does not run it; the
+		// worker's first request for it is then counted as a re-request.
+		if vw, _, _ := m.findWorker(snap, a.name, a.wspec.SizeClass); vw != nil && vw.CurrentTask >= 0 && snap.Tasks[vw.CurrentTask].ExecuteResponse == nil {
+			t := &snap.Tasks[vw.CurrentTask]
+			m.fail("C01", "idle/with-task", "worker %s was told to go idle although task %d (%s) is assigned to it: the task is bound to a worker that was never told to run it", a.name, m.taskID(t), t.ActionDigest)
+		}
 		if wk.assigned != nil {
 			wk.prevDigest, wk.prevTask = wk.assigned, wk.assignedTask
 		}
@@ -1647,6 +1680,13 @@ func (m *monitors) checkC06(snap *scheduler.VerifSnap) {
 	for _, o := range snap.Operations {
 		if o.InNameMap && o.Waiters == 0 && !o.MayExistWithoutWaiters && !o.CleanupActive {
 			m.fail("C06", "operation-not-armed", "operation %s has no waiters but no removal is scheduled for it", opShort(o.Name))
+		}
+		// "only predeclared queues and their bounded background-learning
+		// BACKLOG may remain": a background learning operation may exist
+		// without waiters only while its task is queued or executing. Once the
+		// task has completed it is an ordinary operation nobody waits on.
+		if o.InNameMap && o.Waiters == 0 && o.Task >= 0 && snap.Tasks[o.Task].ExecuteResponse != nil && !o.CleanupActive {
+			m.fail("C06", "operation-not-armed/completed", "operation %s belongs to a COMPLETED task and has no waiters, but no removal is scheduled for it (mayExistWithoutWaiters=%v): it will be retained forever", opShort(o.Name), o.MayExistWithoutWaiters)
 		}
 	}
 }
